@@ -858,3 +858,17 @@ impl<Item, Err, O: Observer<Item, Err>> Observer<Item, Err> for OffByOneTake<O> 
   }
   fn is_finished(&self) -> bool { self.observer.as_ref().map_or(true, |o| o.is_finished()) }
 }
+
+// ---------------------------------------------------------------- C03.S9
+pub struct ForgetfulDistinct<O, Item> { observer: O, last: Option<Item> }
+impl<Item: PartialEq + Clone, Err, O: Observer<Item, Err>> Observer<Item, Err> for ForgetfulDistinct<O, Item> {
+  fn next(&mut self, value: Item) {
+    if self.last.take().map_or(true, |last| last != value) {
+      self.last = Some(value.clone());
+      self.observer.next(value);
+    }
+  }
+  fn error(self, err: Err) { self.observer.error(err) }
+  fn complete(self) { self.observer.complete() }
+  fn is_finished(&self) -> bool { self.observer.is_finished() }
+}
